@@ -25,123 +25,195 @@ class Unsupported(Exception):
     pass
 
 
-# ---------------------------------------------------------------- tiny regex parser -> z3 Re
-def _cls_re(items, negate):
+# ---------------------------------------------------------------- Python regex -> z3 Re
+# The pattern is parsed by the `re` module's own parser (re._parser), so the structure is the one the
+# implementation uses.  Every node that consumes exactly one character (literal, class, category, dot)
+# becomes a set of code points that is *computed with the real matching engine* under the pattern's flags
+# (one compiled single-node pattern, asked about every code point up to MAXCP), so that flags such as
+# IGNORECASE, ASCII or DOTALL need no model of their own.  Sequences, alternatives, groups and repeats
+# are translated structurally; anchors are accepted at the two ends only.
+MAXCP = 0x2FFFF        # largest character of the solvers' string theory
+
+
+def _code_points(parser, compiler, state, node, flags):
+    sub = parser.SubPattern(state, [node])
+    try:
+        pat = compiler.compile(sub, flags)
+    except Exception as exc:         # pragma: no cover
+        raise Unsupported("cannot compile a single-character node: %r" % (exc,))
+    fm = pat.fullmatch
+    return [cp for cp in range(MAXCP + 1) if not (0xD800 <= cp <= 0xDFFF) and fm(chr(cp)) is not None]
+
+
+def _ranges(cps):
+    out = []
+    for cp in cps:
+        if out and out[-1][1] == cp - 1:
+            out[-1][1] = cp
+        else:
+            out.append([cp, cp])
+    return out
+
+
+def _ch(cp):
+    return z3.StringVal(chr(cp)) if cp < 128 else z3.Unit(z3.CharFromBv(z3.BitVecVal(cp, 18))) if hasattr(z3, "CharFromBv") else z3.StringVal(chr(cp))
+
+
+def _set_re(cps):
+    rs = _ranges(cps)
+    if not rs:
+        return z3.Empty(z3.ReSort(z3.StringSort()))
+    parts = [z3.Re(z3.StringVal(chr(a))) if a == b else z3.Range(z3.StringVal(chr(a)), z3.StringVal(chr(b))) for a, b in rs]
+    return parts[0] if len(parts) == 1 else z3.Union(*parts)
+
+
+def _seq_re(parser, compiler, state, nodes, flags, cache):
+    C = parser
     parts = []
-    for it in items:
-        if isinstance(it, tuple):
-            parts.append(z3.Range(it[0], it[1]))
-        else:
-            parts.append(z3.Re(z3.StringVal(it)))
-    r = parts[0] if len(parts) == 1 else z3.Union(*parts)
-    if negate:
-        raise Unsupported("negated class")
-    return r
-
-
-def parse_regex(pat):
-    """Returns (z3 Re for the body, anchored_start, dollar_at_end).  Supports literals, escapes,
-    character classes with ranges, and the quantifiers * + ?."""
-    i = 0
-    n = len(pat)
-    start = False
-    dollar = False
-    seq = []
-    if pat.startswith("^") or pat.startswith("\\A"):
-        start = True
-        i = 1 if pat.startswith("^") else 2
-    while i < n:
-        c = pat[i]
-        atom = None
-        if c == "$" and i == n - 1:
-            dollar = True
-            i += 1
-            continue
-        if c == "\\" and pat[i:i + 2] == "\\Z" and i == n - 2:
-            i += 2
-            continue
-        if c == "[":
-            j = i + 1
-            neg = False
-            if pat[j] == "^":
-                neg = True
-                j += 1
-            items = []
-            while pat[j] != "]":
-                a = pat[j]
-                if a == "\\":
-                    a = pat[j + 1]
-                    j += 1
-                if pat[j + 1] == "-" and pat[j + 2] != "]":
-                    items.append((a, pat[j + 2]))
-                    j += 3
-                else:
-                    items.append(a)
-                    j += 1
-            atom = _cls_re(items, neg)
-            i = j + 1
-        elif c == "\\":
-            d = pat[i + 1]
-            if d == "d":
-                atom = z3.Range("0", "9")
-            elif d == "w":
-                atom = z3.Union(z3.Range("a", "z"), z3.Range("A", "Z"), z3.Range("0", "9"), z3.Re(z3.StringVal("_")))
-            elif d in ".[]()*+?^$\\{}|-":
-                atom = z3.Re(z3.StringVal(d))
+    for op, av in nodes:
+        name = str(op)
+        if name in ("LITERAL", "NOT_LITERAL", "IN", "ANY", "CATEGORY"):
+            key = repr((name, av))
+            if key not in cache:
+                cache[key] = _code_points(parser, compiler, state, (op, av), flags)
+            parts.append(_set_re(cache[key]))
+        elif name in ("MAX_REPEAT", "MIN_REPEAT"):
+            lo, hi, sub = av
+            inner = _seq_re(parser, compiler, state, list(sub), flags, cache)
+            if hi == C.MAXREPEAT:
+                parts.append(z3.Star(inner) if lo == 0 else z3.Plus(inner) if lo == 1 else z3.Concat(z3.Loop(inner, lo, lo), z3.Star(inner)))
+            elif (lo, hi) == (0, 1):
+                parts.append(z3.Option(inner))
             else:
-                raise Unsupported("escape \\" + d)
-            i += 2
-        elif c in "()|{}":
-            raise Unsupported("construct " + c)
-        elif c == ".":
-            raise Unsupported("dot")
-        elif c in "^$":
-            raise Unsupported("inner anchor")
+                parts.append(z3.Loop(inner, lo, hi))
+        elif name == "SUBPATTERN":
+            group, add_flags, del_flags, sub = av
+            if add_flags or del_flags:
+                raise Unsupported("group-local flags")
+            parts.append(_seq_re(parser, compiler, state, list(sub), flags, cache))
+        elif name == "BRANCH":
+            alts = [_seq_re(parser, compiler, state, list(a), flags, cache) for a in av[1]]
+            parts.append(alts[0] if len(alts) == 1 else z3.Union(*alts))
         else:
-            atom = z3.Re(z3.StringVal(c))
-            i += 1
-        if i < n and pat[i] in "*+?":
-            atom = {"*": z3.Star, "+": z3.Plus, "?": z3.Option}[pat[i]](atom)
-            i += 1
-        seq.append(atom)
-    body = seq[0] if len(seq) == 1 else z3.Concat(*seq)
-    return body, start, dollar
+            raise Unsupported("regex construct " + name)
+    if not parts:
+        return z3.Re(z3.StringVal(""))
+    return parts[0] if len(parts) == 1 else z3.Concat(*parts)
 
 
-def python_re_language(fn, pat):
-    """Language accepted by `re.<fn>(pat, s) is not None` for the supported subset."""
-    body, start, dollar = parse_regex(pat)
+def parse_regex(pat, flags=0):
+    """Returns (z3 Re for the body, anchored_start, dollar_at_end, info)."""
+    import re
+    parser, compiler = re._parser, re._compiler
+    if flags & ~(re.IGNORECASE | re.ASCII | re.DOTALL | re.UNICODE | re.VERBOSE):
+        raise Unsupported("flags %r" % (re.RegexFlag(flags),))       # MULTILINE changes what ^ and $ mean
+    tree = parser.parse(pat, flags)
+    fl = tree.state.flags
+    if fl & re.MULTILINE or fl & re.LOCALE:
+        raise Unsupported("inline flags %r" % (re.RegexFlag(fl),))
+    nodes = list(tree)
+    start = dollar = False
+    if nodes and str(nodes[0][0]) == "AT" and str(nodes[0][1]) in ("AT_BEGINNING", "AT_BEGINNING_STRING"):
+        start = True
+        nodes = nodes[1:]
+    endz = False
+    if nodes and str(nodes[-1][0]) == "AT" and str(nodes[-1][1]) in ("AT_END", "AT_END_STRING"):
+        dollar = str(nodes[-1][1]) == "AT_END"
+        endz = not dollar
+        nodes = nodes[:-1]
+    if any(str(op) == "AT" for op, av in nodes):
+        raise Unsupported("inner anchor")
+    cache = {}
+    body = _seq_re(parser, compiler, tree.state, nodes, fl, cache)
+    info = {"flags": str(re.RegexFlag(fl)), "single_character_sets": {k: len(v) for k, v in cache.items()}}
+    return body, start, dollar, endz, info
+
+
+def python_re_language(fn, pat, flags=0):
+    """Language accepted by `re.<fn>(pat, s, flags) is not None` for the supported subset."""
+    body, start, dollar, endz, info = parse_regex(pat, flags)
     anychar = z3.AllChar(z3.ReSort(z3.StringSort()))
     sigma_star = z3.Star(anychar)
     nl = z3.Re(z3.StringVal("\n"))
+    tail_ok = z3.Union(body, z3.Concat(body, nl)) if dollar else body      # $ matches at the end or before a final newline
     if fn == "fullmatch":
-        return body
+        return (tail_ok if dollar else body), info
     if fn == "match" or (fn == "search" and start):
-        if dollar:
-            return z3.Union(body, z3.Concat(body, nl))      # $ matches at the end or before a final newline
-        return z3.Concat(body, sigma_star)
+        if dollar or endz:
+            return tail_ok, info
+        return z3.Concat(body, sigma_star), info
     if fn == "search":
-        if dollar:
-            return z3.Concat(sigma_star, z3.Union(body, z3.Concat(body, nl)))
-        return z3.Concat(sigma_star, body, sigma_star)
+        if dollar or endz:
+            return z3.Concat(sigma_star, tail_ok), info
+        return z3.Concat(sigma_star, body, sigma_star), info
     raise Unsupported("re." + fn)
 
 
+def _flags_value(node):
+    import re
+    if node is None:
+        return 0
+    if isinstance(node, ast.Constant) and isinstance(node.value, int):
+        return node.value
+    if isinstance(node, ast.Attribute) and isinstance(node.value, ast.Name) and node.value.id == "re" and isinstance(getattr(re, node.attr, None), re.RegexFlag):
+        return int(getattr(re, node.attr))
+    if isinstance(node, ast.BinOp) and isinstance(node.op, ast.BitOr):
+        return _flags_value(node.left) | _flags_value(node.right)
+    raise Unsupported("flags expression " + ast.dump(node))
+
+
+def _kw(call, name):
+    for k in call.keywords:
+        if k.arg == name:
+            return k.value
+    return None
+
+
 def extract_is_valid_name():
+    """Accepted shapes:  re.<fn>(<constant pattern>, candidate[, flags])   and
+    <NAME>.<fn>(candidate) with a module-level  NAME = re.compile(<constant pattern>[, flags]).
+    Returns (fn, pattern, flags, source)."""
     from gwf import utils
     src = inspect.getsource(utils.is_valid_name)
     tree = ast.parse(src)
-    for node in ast.walk(tree):
-        if isinstance(node, ast.Call) and isinstance(node.func, ast.Attribute) and isinstance(node.func.value, ast.Name) and node.func.value.id == "re":
-            if len(node.args) == 2 and isinstance(node.args[0], ast.Constant) and isinstance(node.args[0].value, str):
-                return node.func.attr, node.args[0].value, src
-    raise Unsupported("is_valid_name no longer has the shape re.<fn>(<constant pattern>, candidate)")
+    params = [a.arg for a in tree.body[0].args.args]
+    calls = [n for n in ast.walk(tree) if isinstance(n, ast.Call)]
+    rets = [n for n in ast.walk(tree) if isinstance(n, ast.Return)]
+    if len(rets) != 1 or len(tree.body[0].body) > 2:
+        raise Unsupported("is_valid_name is no longer a single return of a regular-expression test")
+    r = rets[0].value
+    ok_shape = isinstance(r, ast.Compare) and len(r.ops) == 1 and isinstance(r.ops[0], ast.IsNot) and isinstance(r.comparators[0], ast.Constant) and r.comparators[0].value is None
+    ok_shape = ok_shape or (isinstance(r, ast.Call) and isinstance(r.func, ast.Name) and r.func.id == "bool")
+    if not ok_shape:
+        raise Unsupported("the result is not `<match> is not None` / bool(<match>)")
+    for node in calls:
+        f = node.func
+        if not (isinstance(f, ast.Attribute) and f.attr in ("match", "fullmatch", "search") and isinstance(f.value, ast.Name)):
+            continue
+        if f.value.id == "re":
+            if len(node.args) >= 2 and isinstance(node.args[0], ast.Constant) and isinstance(node.args[0].value, str) and isinstance(node.args[1], ast.Name) and node.args[1].id == params[0]:
+                fl = node.args[2] if len(node.args) > 2 else _kw(node, "flags")
+                return f.attr, node.args[0].value, _flags_value(fl), src
+        else:
+            if not (len(node.args) == 1 and isinstance(node.args[0], ast.Name) and node.args[0].id == params[0]):
+                continue
+            msrc = inspect.getsource(utils)
+            for st in ast.parse(msrc).body:
+                if isinstance(st, ast.Assign) and len(st.targets) == 1 and isinstance(st.targets[0], ast.Name) and st.targets[0].id == f.value.id:
+                    c = st.value
+                    if (isinstance(c, ast.Call) and isinstance(c.func, ast.Attribute) and c.func.attr == "compile" and isinstance(c.func.value, ast.Name) and c.func.value.id == "re"
+                            and c.args and isinstance(c.args[0], ast.Constant) and isinstance(c.args[0].value, str)):
+                        fl = c.args[1] if len(c.args) > 1 else _kw(c, "flags")
+                        return f.attr, c.args[0].value, _flags_value(fl), src + "\n" + ast.get_source_segment(msrc, st)
+    raise Unsupported("is_valid_name no longer has the shape re.<fn>(<constant pattern>, candidate) or <compiled constant pattern>.<fn>(candidate)")
 
 
 def spec_name_language():
-    first = z3.Union(z3.Range("a", "z"), z3.Range("A", "Z"), z3.Re(z3.StringVal("_")))
-    rest = z3.Union(z3.Range("a", "z"), z3.Range("A", "Z"), z3.Range("0", "9"), z3.Re(z3.StringVal(".")), z3.Re(z3.StringVal("_")))
-    return z3.Concat(first, z3.Star(rest))
+    """[A-Za-z_][A-Za-z0-9._]*  (ASCII letters, digits, dot, underscore; not starting with a digit or a dot), built
+    from explicit code point sets in the same canonical form as the translated implementation."""
+    letters = list(range(ord("A"), ord("Z") + 1)) + list(range(ord("a"), ord("z") + 1)) + [ord("_")]
+    rest = letters + list(range(ord("0"), ord("9") + 1)) + [ord(".")]
+    return z3.Concat(_set_re(sorted(letters)), z3.Star(_set_re(sorted(rest))))
 
 
 def _cross_check(smt2_text, timeout=60):
@@ -178,23 +250,30 @@ def decide(solver, label):
 def name_language():
     """Returns dict(verdict, detail, cex)."""
     try:
-        fn, pat, src = extract_is_valid_name()
-        impl = python_re_language(fn, pat)
+        fn, pat, flags, src = extract_is_valid_name()
+        impl, info = python_re_language(fn, pat, flags)
     except Unsupported as exc:
         return {"verdict": "UNKNOWN", "detail": "translator: %s" % exc}
     s = z3.String("name")
-    solver = z3.Solver()
-    solver.set("timeout", 60000)
-    solver.add(z3.Xor(z3.InRe(s, impl), z3.InRe(s, spec_name_language())))
-    res, model = decide(solver, "exists name: is_valid_name(name) xor name in [A-Za-z_][A-Za-z0-9._]*   (re.%s(%r))" % (fn, pat))
-    answers = [res["z3py"]] + [v for v in res["cross"].values()]
-    if res["z3py"] == "sat":
-        name = model[s].as_string() if model[s] is not None else ""
-        name = bytes(name, "utf-8").decode("unicode_escape") if "\\u{" not in name else _unescape(name)
-        return {"verdict": "REFUTED", "detail": res, "cex": [name]}
-    if res["z3py"] == "unsat" and all(a == "unsat" for a in answers):
-        return {"verdict": "CONFIRMED", "detail": res}
-    return {"verdict": "UNKNOWN", "detail": res}
+    spec = spec_name_language()
+    # two inclusion queries (each is easier for the solvers than one xor)
+    details = []
+    for label, cond in (("accepted by is_valid_name but not identifier-like", z3.And(z3.InRe(s, impl), z3.Not(z3.InRe(s, spec)))),
+                        ("identifier-like but rejected by is_valid_name", z3.And(z3.InRe(s, spec), z3.Not(z3.InRe(s, impl))))):
+        solver = z3.Solver()
+        solver.set("timeout", 60000)
+        solver.add(cond)
+        res, model = decide(solver, "exists name %s   (re.%s(%r, flags=%s); spec [A-Za-z_][A-Za-z0-9._]*)" % (label, fn, pat, info["flags"]))
+        res["translation"] = info
+        details.append(res)
+        answers = [res["z3py"]] + [v for v in res["cross"].values()]
+        if res["z3py"] == "sat":
+            name = model[s].as_string() if model[s] is not None else ""
+            name = bytes(name, "utf-8").decode("unicode_escape") if "\\u{" not in name else _unescape(name)
+            return {"verdict": "REFUTED", "detail": res, "cex": [name]}
+        if not (res["z3py"] == "unsat" and all(a == "unsat" for a in answers)):
+            return {"verdict": "UNKNOWN", "detail": res}
+    return {"verdict": "CONFIRMED", "detail": details}
 
 
 def _unescape(s):
